@@ -9,6 +9,9 @@ type BetaBody struct {
 	Rank  Rank   `json:"rank" validate:"oneof=low"`
 }
 
+// A constant of the Rank enumeration declared in another file than the type itself
+const RankTop Rank = "top"
+
 // @Tag(Beta)
 // @Route(/beta)
 // @Description Beta controller (inherits the default security)
